@@ -49,6 +49,12 @@ func partCCases() []PartC {
 			out = append(out, PartC{Kind: "alias", Place: pl, Beh: b})
 		}
 	}
+	// the same for slices passed to Use(): two groups (or the engine and a group) given one slice with spare capacity
+	for _, pl := range []string{"use-groups", "use-engine"} {
+		for _, b := range []string{"overwrite", "append"} {
+			out = append(out, PartC{Kind: "alias-use", Place: pl, Beh: b})
+		}
+	}
 	return out
 }
 
@@ -74,6 +80,46 @@ func execPartC(c *mc.Ctx, pc PartC, cs Case) {
 	}
 	if pc.Kind == "server" {
 		serverChain(pc, fail)
+		return
+	}
+	if pc.Kind == "alias-use" {
+		e := newEngineC()
+		var entered []int
+		mk := func(id int) app.HandlerFunc {
+			return func(c context.Context, ctx *app.RequestContext) { entered = append(entered, id); ctx.Next(c) }
+		}
+		common := make([]app.HandlerFunc, 1, 4)
+		common[0] = mk(1)
+		var first route.IRoutes
+		if pc.Place == "use-engine" {
+			e.Use(common...)
+			e.Use(mk(10))
+			first = e
+		} else {
+			gA := e.Group("/a")
+			gA.Use(common...)
+			gA.Use(mk(10))
+			first = gA
+		}
+		if pc.Beh == "overwrite" {
+			common[0] = mk(2)
+		}
+		gB := e.Group("/b")
+		gB.Use(common...)
+		gB.Use(mk(20))
+		first.GET("/x", mk(11))
+		gB.GET("/x", mk(21))
+		path := "/a/x"
+		if pc.Place == "use-engine" {
+			path = "/x"
+		}
+		if pv := serveC(e, path); pv != nil {
+			fail("dispatch-panic", fmt.Sprint(pv))
+			return
+		}
+		if fmt.Sprint(entered) != "[1 10 11]" {
+			fail("chain", fmt.Sprintf("middleware registered with Use(common...), Use(own) and route handler 11: GET %s entered %v, expected [1 10 11] (the caller passed the same slice to another group's Use afterwards)", path, entered))
+		}
 		return
 	}
 	e := newEngineC()
